@@ -5,6 +5,7 @@
   oracle on every case (partial).
 -/
 import PasfmtModel.Proofs.SpacingLayout
+import PasfmtModel.Proofs.SpacingLayoutW
 import PasfmtModel.Model.Pipeline
 
 namespace Pasfmt.C06
@@ -36,5 +37,30 @@ theorem new_reads_only_fmtdata (t1 t2 : Tok) (f : Bool) (hc : t1.content = t2.co
     (hf : FmtData.ofWs t1.ws f = FmtData.ofWs t2.ws f) :
     ({ tok := t1, fmt := FmtData.ofWs t1.ws f } : FTok).fmt = ({ tok := t2, fmt := FmtData.ofWs t2.ws f } : FTok).fmt ∧
     t1.content = t2.content ∧ t1.kind = t2.kind := ⟨hf, hc, hk⟩
+
+/-- **A space or a line break.**  Two layouts of one token sequence in which every gap is empty in both
+    or non-empty in both (how many spaces, whether the gap holds a line break, how far the next line
+    is indented are all free) get the same spacing from `TokenSpacing`.  True since the repair
+    b68b46e of `max_one_either_side`: before it a token at column 0 of the line after a literal was
+    read as "no space" (`const A = 1<newline>experimental; // c` gave `1experimental`). -/
+theorem spacing_space_or_break (ft1 ft2 : FT) (h : GapEq ft1 ft2) (hni : noInlineLine (spacingItems ft1)) :
+    spacingResult (spacingItems ft1) = spacingResult (spacingItems ft2) :=
+  spacingResult_gapEq ft1 ft2 h hni
+
+/-- the premises are met by the two layouts of the repaired defect: `1 experimental` and
+    `1<newline>experimental` (the identifier at column 0), and both get one space -/
+example :
+    let num : Tok := { ws := [], content := [0x31], kind := .tNumberLiteral .nDecimal }
+    let idA : Tok := { ws := [0x20], content := [0x65], kind := .tIdentifier }
+    let idB : Tok := { ws := [0x0A], content := [0x65], kind := .tIdentifier }
+    let a : FT := [{ tok := num, fmt := FmtData.ofWs num.ws false }, { tok := idA, fmt := FmtData.ofWs idA.ws false }]
+    let b : FT := [{ tok := num, fmt := FmtData.ofWs num.ws false }, { tok := idB, fmt := FmtData.ofWs idB.ws false }]
+    GapEq a b ∧ noInlineLine (spacingItems a) ∧ spacingResult (spacingItems b) = [0, 1] := by
+  refine ⟨?_, ?_, ?_⟩
+  · exact GapEq.cons rfl rfl (by intro h; cases h) (GapEq.cons rfl (by decide) (by intro h; cases h) GapEq.nil)
+  · intro p hp
+    simp [spacingItems, spacingItemsGo] at hp
+    rcases hp with rfl | rfl <;> simp
+  · decide
 
 end Pasfmt.C06
